@@ -52,7 +52,7 @@ func (c *Cast) ids(set string) []string {
 // PoolEvent applies one session event to the world through the real RPC methods with real
 // signatures. Events:
 //
-//	conn X | upd X set | tick d | link W X | peer X k | withdraw W ok|fail | dep W amount
+//	conn X | close X | upd X set | tick d | link W X | peer X k | withdraw W ok|fail | dep W amount
 //	forged-upd X | forged-link W X | forged-conn X | forged-withdraw W   (signature of another key)
 func PoolEvent(w *PoolWorld, c *Cast, ev string) error {
 	f := strings.Fields(ev)
@@ -67,6 +67,8 @@ func PoolEvent(w *PoolWorld, c *Cast, ev string) error {
 	case "conn":
 		_, err := w.Connect(c.ByName[f[1]], ConnectOpts{Host: strings.HasPrefix(f[1], "H")})
 		return err
+	case "close": // the connection node X registered on drops (the server's disconnect callback)
+		return w.Pool.CloseRemote(w.Host(c.ByName[f[1]].Name).Service())
 	case "upd":
 		_, err := w.Update(c.ByName[f[1]], c.ids(f[2]), 0)
 		return err
